@@ -405,7 +405,10 @@ def run(ctx):
                  "ANSI one; an undecorated output routes text through remove_format", reference=5)
     pinit = plain.methods["__init__"]
     pc = [c for c in q.calls(pinit) if isinstance(c.func, ast.Name) and c.func.id == "Pastel"]
-    if pc and pc[0].args and isinstance(pc[0].args[0], ast.Constant) and pc[0].args[0].value is False:
+    flag0 = None
+    if pc:
+        flag0 = pc[0].args[0] if pc[0].args else next((k.value for k in pc[0].keywords if k.arg in ("colorized", "colorize")), None)
+    if flag0 is not None and isinstance(flag0, ast.Constant) and flag0.value is False:
         r.ok("PlainFormatter: Pastel(False)")
     else:
         r.fail(pinit, pinit.node, "Pastel colour flag", "the plain formatter constructs its formatter with colours enabled")
